@@ -11,6 +11,7 @@
 From Coq Require Import List NArith Bool.
 From GV.Base Require Import Alist.
 From GV.Client Require Import Queues QueuesFacts QueuesGone.
+From GV.Client Require Drain DrainFacts.
 Import ListNotations.
 Open Scope N_scope.
 
@@ -143,6 +144,59 @@ Example C13_example :
         ROp 1 SFib (Some (1, 1, 4)); ROp 2 SFibFailed (Some (2, 5, 7))]
   /\ await (run c init (evs ++ [Resp (mkrsp [(2, SFib)] false false)])) = AwErr 0 1.
 Proof. vm_compute. repeat split; reflexivity. Qed.
+
+(* THE SEND PATH UNDER EVERY INTERLEAVING (Client/Drain.v: Q, StartSending, StopSending called from any number of
+   goroutines, and the sender; one label per atomic action, every list of labels is a schedule; any capacity of
+   the modify channel).  The statements above take one event at a time; these say that between "Q took the
+   request" and "the stream got it" nothing is lost or sent twice, whatever overlaps with whatever - in
+   particular StopSending and further Q calls while a StartSending is still handing over the queue. *)
+Theorem C13_send_path_conservation cap ls :
+  Permutation.Permutation (Drain.places (Drain.run cap Drain.init ls)) (Drain.issued ls).
+Proof. exact (DrainFacts.conservation cap ls). Qed.
+Print Assumptions C13_send_path_conservation.
+
+Theorem C13_send_path_never_lost cap ls id :
+  In id (Drain.issued ls) -> In id (Drain.places (Drain.run cap Drain.init ls)).
+Proof. exact (DrainFacts.never_lost cap ls id). Qed.
+Print Assumptions C13_send_path_never_lost.
+
+Theorem C13_send_path_at_most_once cap ls : NoDup (Drain.issued ls) ->
+  let s := Drain.run cap Drain.init ls in
+  NoDup (Drain.handed s) /\
+  forall id, In id (Drain.handed s) ->
+    ~ In id (Drain.appenders s) /\ ~ In id (Drain.sendq s) /\ ~ In id (concat (Drain.drains s))
+    /\ ~ In id (Drain.pushers s) /\ ~ In id (Drain.chan s).
+Proof. exact (DrainFacts.handed_once cap ls). Qed.
+Print Assumptions C13_send_path_at_most_once.
+
+(* nothing in flight: every request has reached the stream or waits in the send queue for StartSending *)
+Theorem C13_send_path_idle cap ls : let s := Drain.run cap Drain.init ls in
+  Drain.idle s -> Permutation.Permutation (Drain.sendq s ++ Drain.handed s) (Drain.issued ls).
+Proof. exact (DrainFacts.idle_all_handed cap ls). Qed.
+Print Assumptions C13_send_path_idle.
+
+(* and "in flight" ends: while the stream takes messages some action is possible, every action uses up the
+   measure, and a run that cannot be extended has nothing in flight - StartSending and Q return under every schedule *)
+Theorem C13_send_path_progress cap s : (0 < cap)%nat -> ~ Drain.idle s ->
+  exists l, Drain.internal l = true /\ Drain.step cap s l <> None.
+Proof. exact (DrainFacts.progress cap s). Qed.
+Print Assumptions C13_send_path_progress.
+
+Theorem C13_send_path_terminates cap s ls : DrainFacts.all_enabled cap s ls -> (length ls <= Drain.measure s)%nat.
+Proof. exact (DrainFacts.in_flight_terminates cap s ls). Qed.
+Print Assumptions C13_send_path_terminates.
+
+Theorem C13_send_path_maximal_run_idle cap s ls : (0 < cap)%nat -> DrainFacts.all_enabled cap s ls ->
+  (forall l, Drain.internal l = true -> Drain.step cap (Drain.run cap s ls) l = None) -> Drain.idle (Drain.run cap s ls).
+Proof. exact (DrainFacts.maximal_run_idle cap s ls). Qed.
+Print Assumptions C13_send_path_maximal_run_idle.
+
+(* non-vacuity: the harness scenario (9 requests, StartSending against a stuck stream, StopSending, 4 more, the
+   stream freed, StartSending again, 2 direct; session parameters first each time): the first StartSending has to
+   wait, and the stream gets everything once, in order *)
+Example C13_example_drain :
+  Drain.scenario 5 9 4 2 true = (true, [0;1;2;3;4;5;6;7;8;9;0;10;11;12;13;14;15]).
+Proof. vm_compute. reflexivity. Qed.
 
 (* non-vacuity: a request with the same id twice: the first operation is registered, the second is not, the send
    error is on record; the answer for the id completes the FIRST operation; AwaitConverged reports the error *)
